@@ -59,6 +59,12 @@ CHECKS.update({
     "C13": dict(technique="TLA+ module Registry.tla over ProtoSchema.tla (generated at check time from the text of api.proto by an independent reader): TLC evaluates table equality, uniqueness/contiguity, positional lookup, descriptor agreement and the direction statements on a snapshot of the library's tables, on what a live connection decoded each id as, and on the types written/subscribed by every public API call in the simulator", text="Every statement of the property is a TLC-evaluated formula over the complete finite tables (exhaustive); direction is decided for the whole public API surface (introspected) plus scripted voice-assistant and peer-request follow-ups on the real client.", design="§3.9, §6 C13", note="TLC is used here as an evaluator of set equalities over finite tables; the .proto text reader is trusted for the subset of the language api.proto uses. " + TB),
 })
 
+_SESS_TECH = "TLA+ spec Session.tla (operations and subscriptions above an established session: op x message -> effect table, subscriber sets, camera parts per subscription and key, voice-assistant start tasks) model-checked by TLC; systematic and random histories executed on the real APIClient over the simulated device; every callback row (outcomes with results, user callbacks with model type/key/value check, frames written, distinct callbacks registered, timer heap at rest) validated by TLC against TraceSession.tla"
+CHECKS.update({
+    "C16": dict(technique=_SESS_TECH, text="NoCrossTalk / ForeignIgnored / ConnectTimeoutOrder model-checked for <= 3 concurrent operations over addresses {1,2} x handles {1,2}; every operation kind x message kind x {own, foreign address, foreign handle}, concurrent neighbours, time-outs, cancellations, connection loss and repeated unsubscribe calls run on the real client and validated row by row.", design="§3.6, §6 C16", note="'Nothing subscribed' excludes what the API documents as staying subscribed after success. " + TB),
+    "C17": dict(technique=_SESS_TECH, text="OnePerMessage / CameraConcat model-checked; all 21 state types, all interleavings of two cameras' chunk streams, unsubscribe at every point of a stream, voice-assistant handler outcomes x audio x unsubscribe at every point run on the real client; callbacks carry model type, key, image parts and a value check against the sent message.", design="§3.6, §6 C17", note="Expected model class per state message is a literal table in the harness; value conversion itself is C14's subject. " + TB),
+})
+
 NOT_YET = {}
 
 
